@@ -15,6 +15,13 @@
     Box_Del         : `del(val)` — the destructor of an owner issues a `del` for what it owns
     GC_Del          : GC_Sweep with nothing marked (roots are not swept), then the tables are freed
                       (Cello_Exit at program exit, Thread_Init_Run at thread exit)
+    alloc / dealloc : `alloc`, `alloc_root`, `alloc_raw` are `alloc_by` (the registration half of `new…`);
+                      `dealloc`, `dealloc_raw`, `dealloc_root` are one function that releases the block and never touches
+                      the collector (a registered object stays registered: known finding KF-C06-dealloc-registered)
+    a destructor that allocates: `new` inside a destructor goes through the same `GC_Set`; when `nitems > mitems` it runs
+                      a *nested* `GC_Mark; GC_Sweep` on the same collector, which overwrites `freelist/freenum` of the sweep
+                      whose release loop is running and leaves them `NULL/0`: the outer loop stops, the rest of its pending
+                      list is abandoned (known finding KF-C06-dtor-alloc).  `St.pending` is that one shared field.
 
   What is abstract: the registry is a duplicate-free list of (address, root) — its robin-hood layout is C17's business;
   the slot order, which fixes the order of the pending list, is a *parameter* of every collection (`order`), so theorems
@@ -26,7 +33,8 @@
   `free`, i.e. for what is a new identity here).
 
   Two switches (`Cfg`) select the behaviour of the two halves of fix 5c00ad8, so that the pre-fix code can be stated
-  and refuted; `Cfg.current` is the code that exists.
+  and refuted; two more select the two halves of the repair proposed for KF-C06-dtor-alloc (not in the source now);
+  `Cfg.current` is the code that exists.
 -/
 namespace Cello.Life
 
@@ -54,10 +62,25 @@ structure Cfg where
   remFinalisesPending : Bool
   /-- GC_Sweep clears a pending slot before finalising its object -/
   sweepNullsSlot : Bool
+  /-- (proposed repair, first half) GC_Set does not start a collection while the release loop of a sweep is running
+      (`… and gc->freelist is NULL`) -/
+  setGuardsSweep : Bool
+  /-- (proposed repair, second half) GC_Del sweeps until only roots are left -/
+  teardownRepeats : Bool
 deriving Repr, DecidableEq, Inhabited
 
-def Cfg.current : Cfg := ⟨true, true⟩
-def Cfg.preFix : Cfg := ⟨false, false⟩
+def Cfg.current : Cfg := ⟨true, true, false, false⟩
+def Cfg.preFix : Cfg := ⟨false, false, false, false⟩
+/-- the code with the repair proposed for KF-C06-dtor-alloc -/
+def Cfg.repaired : Cfg := ⟨true, true, true, true⟩
+
+/-- an allocation made by a destructor: `new` of a leaf object `addr` (its own destructor neither deletes nor allocates);
+    `marks`/`order` = marked set and slot order of the collection that this registration runs if `nitems > mitems` -/
+structure DAlloc where
+  addr : Addr
+  marks : List Addr
+  order : List Addr
+deriving Repr, DecidableEq, Inhabited
 
 structure St where
   /-- registry entries (GC_Set_Ptr / GC_Rem_Ptr / GC_Sweep); `nitems` = `reg.length` -/
@@ -71,10 +94,17 @@ structure St where
   owns : List (Addr × List Addr)
   /-- the ledger -/
   log : List Ev
+  /-- what the destructor of an object allocates (with `new`) when it runs; most recent binding first -/
+  dalloc : List (Addr × List DAlloc)
 deriving Repr, Inhabited
 
 /-- state of a fresh collector (`GC_New` on zeroed memory: `mitems = 0`, `running = true`) -/
-def St.init : St := ⟨[], [], true, 0, [], []⟩
+def St.init : St := ⟨[], [], true, 0, [], [], []⟩
+
+def St.dallocOf (s : St) (a : Addr) : List DAlloc :=
+  match s.dalloc.find? (fun p => p.1 == a) with
+  | some p => p.2
+  | none => []
 
 def St.ownsOf (s : St) (a : Addr) : List Addr :=
   match s.owns.find? (fun p => p.1 == a) with
@@ -110,31 +140,6 @@ def gcRem (fin : St → Addr → St) (c : Cfg) (s : St) (x : Addr) : St :=
   let s1 := gcRemPtr fin c s x
   { s1 with mitems := threshold s1.reg.length }
 
-/-- `dealloc(destruct(a))`: the destructor logs, `del`s what the object owns (through `GC_Rem`), then the memory is
-    released.  `fuel` bounds the nesting of destructors; `fuelFor` always suffices (theorem `finalise_spec`): every nested
-    call is preceded by the removal of one object from the registry or the pending list.  Out of fuel the state is returned
-    unchanged, i.e. with the events *missing* — no theorem can hold because of that. -/
-def finalise : Nat → Cfg → St → Addr → St
-  | 0, _, s, _ => s
-  | fuel + 1, c, s, a =>
-    let s1 := { s with log := s.log ++ [Ev.fin a] }
-    let s2 := (s.ownsOf a).foldl (fun st x => gcRem (finalise fuel c) c st x) s1
-    { s2 with log := s2.log ++ [Ev.free a] }
-
-def fuelFor (s : St) : Nat := s.reg.length + s.pending.length + 1
-
-/-- phase 2 of `GC_Sweep` over the pending addresses `todo` (the pending list as built by phase 1): a slot that is
-    still non-NULL is cleared (fix) and its object finalised -/
-def sweepLoop (fuel : Nat) (c : Cfg) : List Addr → St → St
-  | [], s => s
-  | a :: rest, s =>
-    let s' :=
-      if s.pending.contains (some a) then
-        let s1 := if c.sweepNullsSlot then { s with pending := strike a s.pending } else s
-        finalise fuel c s1 a
-      else s
-    sweepLoop fuel c rest s'
-
 /-- the slot order of a collection: the candidates listed in `order` first, in that order, then the others -/
 def arrange : List Addr → List Addr → List Addr
   | [], cand => cand
@@ -146,13 +151,74 @@ def swept (marks : List Addr) (e : Entry) : Bool := !e.root && !marks.contains e
 def pendingOf (s : St) (marks order : List Addr) : List Addr :=
   arrange order ((s.reg.filter (swept marks)).map (·.addr))
 
-/-- `GC_Sweep` with marked set `marks`; `order` = slot order of the registry -/
-def sweep (c : Cfg) (s : St) (marks order : List Addr) : St :=
+/-- phase 2 of `GC_Sweep` over the pending addresses `todo` (the pending list as built by phase 1), with
+    `fin = fun s a => dealloc(destruct(a))`: a slot that is still non-NULL is cleared (fix) and its object finalised.
+    The loop reads `freelist`/`freenum` of the collector afresh at every turn (`i < gc->freenum`, `gc->freelist[i]`):
+    if a nested collection has replaced and released them, nothing is found any more. -/
+def sweepLoopWith (fin : St → Addr → St) (c : Cfg) : List Addr → St → St
+  | [], s => s
+  | a :: rest, s =>
+    let s' :=
+      if s.pending.contains (some a) then
+        let s1 := if c.sweepNullsSlot then { s with pending := strike a s.pending } else s
+        fin s1 a
+      else s
+    sweepLoopWith fin c rest s'
+
+/-- `GC_Sweep` with marked set `marks`; `order` = slot order of the registry.  The pending list is a field of the
+    collector: it is overwritten at the start (`realloc`, `freenum = 0`) and released at the end (`NULL`, `0`), whatever
+    it held. -/
+def sweepWith (fin : St → Addr → St) (c : Cfg) (s : St) (marks order : List Addr) : St :=
   let pend := pendingOf s marks order
   let reg' := s.reg.filter (fun e => !swept marks e)
   let s1 := { s with reg := reg', pending := pend.map some, mitems := threshold reg'.length }
-  let s2 := sweepLoop (fuelFor s1) c pend s1
+  let s2 := sweepLoopWith fin c pend s1
   { s2 with pending := [] }
+
+/-- `GC_Set` (the registration done by `alloc_by`); `sw` = `GC_Mark; GC_Sweep` with the given marked set and slot order.
+    With the proposed repair (`c.setGuardsSweep`) no collection is started while a release loop is running. -/
+def gcSet (sw : St → List Addr → List Addr → St) (c : Cfg) (s : St) (a : Addr) (root : Bool) (marks order : List Addr) : St :=
+  if !s.running then s else
+  let s1 := { s with reg := s.reg ++ [⟨a, root⟩] }
+  if s1.reg.length > s1.mitems && !(c.setGuardsSweep && !s.pending.isEmpty) then sw s1 marks order else s1
+
+/-- `dealloc(destruct(a))`: the destructor logs, allocates what it allocates (each `new` through `GC_Set`, which may run
+    a nested collection on the same collector), `del`s what the object owns (through `GC_Rem`), then the memory is
+    released.  `fuel` bounds the nesting of destructors; `fuelFor` always suffices when no destructor allocates (theorem
+    `finalise_spec`): every nested call is preceded by the removal of one object from the registry or the pending list.
+    Out of fuel the state is returned unchanged, i.e. with the events *missing* — no theorem can hold because of that. -/
+def finalise : Nat → Cfg → St → Addr → St
+  | 0, _, s, _ => s
+  | fuel + 1, c, s, a =>
+    let s1 := { s with log := s.log ++ [Ev.fin a] }
+    let s2 := (s.dallocOf a).foldl
+      (fun st d => gcSet (sweepWith (finalise fuel c) c) c st d.addr false d.marks d.order) s1
+    let s3 := (s.ownsOf a).foldl (fun st x => gcRem (finalise fuel c) c st x) s2
+    { s3 with log := s3.log ++ [Ev.free a] }
+
+/-- number of allocations the destructors known to the collector state can still make -/
+def St.dallocTotal (s : St) : Nat := (s.dalloc.map (fun p => p.2.length)).foldl (· + ·) 0
+
+def fuelFor (s : St) : Nat := s.reg.length + s.pending.length + 1 + s.dallocTotal
+
+def sweepLoop (fuel : Nat) (c : Cfg) : List Addr → St → St := sweepLoopWith (finalise fuel c) c
+
+/-- `GC_Sweep` called between operations (by `GC_Set`, `GC_Del`, or the program) -/
+def sweep (c : Cfg) (s : St) (marks order : List Addr) : St :=
+  sweepWith (finalise (fuelFor s) c) c s marks order
+
+/-- `alloc_by`: `alloc` / `alloc_root` register the block with the collector, `alloc_raw` does not -/
+def allocBy (c : Cfg) (s : St) (a : Addr) (k : Kind) (marks order : List Addr) : St :=
+  match k with
+  | .raw => s
+  | _ => gcSet (sweep c) c s a (k == .root) marks order
+
+/-- `GC_Del` with the proposed repair: sweep until only roots are left (`fuel` rounds at most) -/
+def sweepAll (c : Cfg) : Nat → St → List Addr → St
+  | 0, s, _ => s
+  | n + 1, s, order =>
+    let s' := sweep c s [] order
+    if s'.reg.any (fun e => !e.root) then sweepAll c n s' order else s'
 
 inductive Op where
   /-- `new`/`new_root`/`new_raw` of an object whose destructor will `del` the objects `owned`; `marks`/`order` are used
@@ -169,18 +235,17 @@ inductive Op where
   | start
   /-- `GC_Del`: thread exit / program exit -/
   | teardown (order : List Addr)
+  /-- `alloc` / `alloc_root` / `alloc_raw`: the registration half of `new…`, no constructor -/
+  | alloc (a : Addr) (k : Kind) (marks order : List Addr)
+  /-- `dealloc(destruct(a))` issued by the program (`dealloc`, `dealloc_raw`, `dealloc_root` are the same function) -/
+  | dealloc (a : Addr) (k : Kind)
+  /-- the object `a` is of a type whose destructor allocates: when it runs it does `new` for each of `allocs`, in order -/
+  | dtor (a : Addr) (allocs : List DAlloc)
 deriving Repr, Inhabited, DecidableEq
 
 def step (c : Cfg) (s : St) : Op → St
   | .new a k owned marks order =>
-    let s1 : St :=
-      match k with
-      | .raw => s
-      | _ =>
-        -- GC_Set
-        if !s.running then s else
-        let s1 := { s with reg := s.reg ++ [⟨a, k == .root⟩] }
-        if s1.reg.length > s1.mitems then sweep c s1 marks order else s1
+    let s1 := allocBy c s a k marks order
     -- the constructor (Box_New: `val` assigned) runs after the registration
     { s1 with owns := (a, owned) :: s1.owns }
   | .own a owned => { s with owns := (a, owned) :: s.owns }
@@ -191,14 +256,17 @@ def step (c : Cfg) (s : St) : Op → St
   | .collect marks order => sweep c s marks order
   | .stop => { s with running := false }
   | .start => { s with running := true }
-  | .teardown order => sweep c s [] order
+  | .teardown order => if c.teardownRepeats then sweepAll c (fuelFor s) s order else sweep c s [] order
+  | .alloc a k marks order => allocBy c s a k marks order
+  | .dealloc a _ => finalise (fuelFor s) c s a
+  | .dtor a allocs => { s with dalloc := (a, allocs) :: s.dalloc }
 
 def run (c : Cfg) (s : St) (ops : List Op) : St := ops.foldl (step c) s
 
 /-- the pending list built by the collection that `op` performs in state `s` (`[]` if it performs none): reported by the
     driver next to the harness's snapshot of the real `freelist` -/
 def stepPending (s : St) : Op → List Addr
-  | .new a k _ marks order =>
+  | .new a k _ marks order | .alloc a k marks order =>
     match k with
     | .raw => []
     | _ =>
